@@ -16,7 +16,7 @@ def run(v, tier):
         text, lemmas = mmgen.database(random.Random(rng.random()), nlemmas=rng.choice([1, 2, 3]), zmode=rng.choice(['none', 'all', 'random', 'dup']),
                                       nconstr=rng.choice([1, 2, 3]), naxioms=rng.choice([2, 3, 4]), nrules=rng.choice([0, 1, 2]),
                                       nested=rng.random() < 0.5, disjoint=rng.random() < 0.65,
-                                      nsugar=rng.choice([0, 0, 1]), nquoted=rng.choice([0, 0, 1, 2]))
+                                      nsugar=rng.choice([0, 0, 1]), nquoted=rng.choice([0, 0, 1, 2]), lemma_hyps=True)
         reqs.append({'cmd': 'mmdb', 'text': text, 'lemmas': lemmas})
     for i in range(10 if quick else 100):     # proofs that need a top-level $d between DUMMY variables
         text, lemmas = mmgen.dummy_database(random.Random(rng.random()), zmode=rng.choice(['none', 'all']))
